@@ -454,7 +454,8 @@ func (it *FlatIterator) Reset() {
 		case it.IsScalar():
 			it.nextIndex = 0
 		case it.isVector:
-			it.nextIndex = (it.shape[0] - 1) * it.strides[0]
+			// vector-like patterns have unit strides whichever axis carries the length
+			it.nextIndex = it.size - 1
 		// case it.IsRowVec():
 		// 	it.nextIndex = (it.shape[1] - 1) * it.strides[1]
 		// case it.IsColVec():
